@@ -214,6 +214,20 @@ let handle = function
     let (o, st') = batch_eval (nat_of_int (int_of_string n)) chk st in
     L [(match o with Values k -> A (string_of_int (int_of_nat k)) | GaveUp -> A "gaveup");
        L (List.map (fun f -> A (string_of_int (List.length f))) st')]
+  | L (A "str" :: A fn :: args) ->
+    let sv = function L cs -> List.map z_a cs | _ -> failwith "str" in
+    let ss l = L (List.map a_z l) in
+    (match fn, args with
+     | "substr", [st; cnt; s] -> ss (substr (z_a st) (z_a cnt) (sv s))
+     | "replace", [s; p; r] -> ss (replace1 (sv s) (sv p) (sv r))
+     | "len", [s] -> a_z (strlen (sv s))
+     | "contains", [s; t] -> bool_sexp (contains (sv s) (sv t))
+     | "prefixof", [t; s] -> bool_sexp (prefixof (sv t) (sv s))
+     | "suffixof", [t; s] -> bool_sexp (suffixof (sv t) (sv s))
+     | "indexof", [s; t; i] -> a_z (indexof (sv s) (sv t) (z_a i))
+     | "to_int", [s] -> a_z (to_int (sv s))
+     | "from_int", [v] -> ss (from_int (z_a v))
+     | _ -> failwith "str fn")
   | L [A "fe_split_fe"; st] -> L (List.map fe_sexp (split_fe (fe_of st)))
   | L [A "meta"; e] ->
     let x = expr_of e in
